@@ -2,6 +2,7 @@
    documented.  Everything is proved for EVERY oracle (Section variable orc), every heap and
    every value.  Decimal text, trim and "{}" search lemmas are in DecimalProofs.v. *)
 From Coq Require Import ZArith NArith Lia Bool List String Floats.
+From Coq Require Uint63 Zpower.
 From NL.Model Require Import Builtins.
 From NL.Spec Require Import GCInv.
 From NL.Proofs Require Import DecimalProofs.
@@ -144,6 +145,159 @@ Proof.
   - right. exists a, b. apply find_placeholder_some, F.
   - left. apply find_placeholder_none, F.
 Qed.
+
+
+(** * 1b. Float <-> integer: truncation (item 4) *)
+
+(* A finite float is (-1)^s * m * 2^e = sf_num / sf_den; `as isize` is Z.quot (division rounding
+   toward zero) of that fraction, saturated to the isize range. *)
+Definition sf_num (s : bool) (m : positive) (e : Z) : Z := (if s then - Zpos m else Zpos m) * 2 ^ Z.max e 0.
+Definition sf_den (e : Z) : Z := 2 ^ Z.max (- e) 0.
+Definition clamp_isize (z : Z) : Z := if z <? - HALF then - HALF else if HALF - 1 <? z then HALF - 1 else z.
+
+Theorem trunc_float_spec : forall x s m e, Prim2SF x = S754_finite s m e ->
+  trunc_float x = clamp_isize (Z.quot (sf_num s m e) (sf_den e)).
+Proof.
+  intros x s m e H. unfold trunc_float. rewrite H. unfold sf_num, sf_den. fold (clamp_isize).
+  destruct (0 <=? e) eqn:He.
+  - apply Z.leb_le in He. rewrite (Z.max_l e 0), (Z.max_r (- e) 0) by lia.
+    rewrite Z.pow_0_r, Z.quot_1_r.
+    destruct s; [rewrite Z.mul_opp_l|]; reflexivity.
+  - apply Z.leb_gt in He. rewrite (Z.max_r e 0), (Z.max_l (- e) 0) by lia.
+    rewrite Z.pow_0_r, Z.mul_1_r.
+    assert (Hp : 0 < 2 ^ (- e)) by (apply Z.pow_pos_nonneg; lia).
+    destruct s.
+    + rewrite Z.quot_opp_l by lia. rewrite Z.quot_div_nonneg by lia. reflexivity.
+    + rewrite Z.quot_div_nonneg by lia. reflexivity.
+Qed.
+
+(* NaN converts to 0 and the infinities saturate (Rust `as`); int() then rejects the saturated
+   values because they are outside [MIN_INT, MAX_INT] *)
+Lemma trunc_float_nan : trunc_float nan = 0.
+Proof. reflexivity. Qed.
+Lemma trunc_float_infinity : trunc_float infinity = 2 ^ 63 - 1 /\ trunc_float neg_infinity = - 2 ^ 63.
+Proof. split; reflexivity. Qed.
+
+(* integers up to 2^53 in magnitude survive int -> float -> int.  Uses the standard-library
+   axioms FloatAxioms.of_uint63_spec, FloatAxioms.opp_spec and Uint63.of_Z_spec (and the Uint63
+   axioms the latter rests on). *)
+Lemma digits2_pos_bounds : forall m,
+  2 ^ (Zpos (digits2_pos m) - 1) <= Zpos m < 2 ^ Zpos (digits2_pos m).
+Proof.
+  induction m as [p IH|p IH|]; cbn [digits2_pos].
+  - rewrite Pos2Z.inj_succ. replace (Z.succ (Zpos (digits2_pos p)) - 1) with (Z.succ (Zpos (digits2_pos p) - 1)) by lia.
+    rewrite !Z.pow_succ_r by lia. lia.
+  - rewrite Pos2Z.inj_succ. replace (Z.succ (Zpos (digits2_pos p)) - 1) with (Z.succ (Zpos (digits2_pos p) - 1)) by lia.
+    rewrite !Z.pow_succ_r by lia. lia.
+  - cbn. lia.
+Qed.
+
+Lemma digits2_shift : forall k m, digits2_pos (shift_pos k m) = (digits2_pos m + k)%positive.
+Proof.
+  intros k m. unfold shift_pos. induction k as [|k IH] using Pos.peano_ind.
+  - cbn. lia.
+  - rewrite Pos.iter_succ. cbn [digits2_pos]. rewrite IH. lia.
+Qed.
+
+Lemma binary_round_aux_exact : forall s mz ez,
+  Zpos (digits2_pos mz) = 53 -> -1074 <= ez <= 971 ->
+  binary_round_aux FloatOps.prec FloatOps.emax s (Zpos mz) ez loc_Exact = S754_finite s mz ez.
+Proof.
+  intros s mz ez Hd He.
+  assert (Hf : fexp FloatOps.prec FloatOps.emax (Zdigits2 (Zpos mz) + ez) - ez = 0).
+  { unfold fexp, emin, FloatOps.prec, FloatOps.emax, Zdigits2. rewrite Hd. lia. }
+  unfold binary_round_aux.
+  unfold shr_fexp at 1. rewrite Hf. cbn [shr shr_record_of_loc].
+  cbn [shr_m loc_of_shr_record round_nearest_even].
+  unfold shr_fexp. rewrite Hf. cbn [shr shr_record_of_loc shr_m].
+  unfold FloatOps.prec, FloatOps.emax. replace (Zle_bool ez (1024 - 53)) with true; [reflexivity|].
+  symmetry. apply Zle_imp_le_bool. lia.
+Qed.
+
+Lemma binary_round_small : forall s m, Zpos m < 2 ^ 53 ->
+  exists mz ez, binary_round FloatOps.prec FloatOps.emax s m 0 = S754_finite s mz ez /\ ez <= 0 /\ -53 < ez /\
+                Zpos mz = Zpos m * 2 ^ (- ez).
+Proof.
+  intros s m Hm.
+  pose proof (digits2_pos_bounds m) as [Hlo Hhi].
+  assert (Hd : Zpos (digits2_pos m) <= 53).
+  { destruct (Z_le_gt_dec (Zpos (digits2_pos m)) 53) as [L|G]; [exact L|]. exfalso.
+    assert (2 ^ 53 <= 2 ^ (Zpos (digits2_pos m) - 1)) by (apply Z.pow_le_mono_r; lia). lia. }
+  unfold binary_round.
+  assert (Hfe : fexp FloatOps.prec FloatOps.emax (Zpos (digits2_pos m) + 0) = Zpos (digits2_pos m) - 53).
+  { unfold fexp, emin, FloatOps.prec, FloatOps.emax. lia. }
+  rewrite Hfe. unfold shl_align.
+  destruct (Zpos (digits2_pos m) - 53 - 0) as [|k|k] eqn:Ek; [| lia |].
+  - exists m, 0. rewrite binary_round_aux_exact by lia. repeat split; try lia.
+  - exists (shift_pos k m), (Zpos (digits2_pos m) - 53).
+    rewrite binary_round_aux_exact.
+    + repeat split; try lia. rewrite Zpower.shift_pos_correct, Zpower.Zpower_pos_nat, Zpower.Zpower_nat_Z, positive_nat_Z.
+      replace (- (Zpos (digits2_pos m) - 53)) with (Zpos k) by lia. lia.
+    + rewrite digits2_shift. lia.
+    + lia.
+Qed.
+
+Definition trunc_sf (f : spec_float) : Z :=
+  match f with
+  | S754_zero _ => 0
+  | S754_nan => 0
+  | S754_infinity s => if s then - HALF else HALF - 1
+  | S754_finite s m e =>
+      let mag := if 0 <=? e then Zpos m * 2 ^ e else Zpos m / 2 ^ (- e) in
+      let z := if s then - mag else mag in
+      if z <? - HALF then - HALF else if HALF - 1 <? z then HALF - 1 else z
+  end.
+
+Lemma trunc_float_sf : forall x, trunc_float x = trunc_sf (Prim2SF x).
+Proof. reflexivity. Qed.
+
+Lemma trunc_sf_exact : forall s mz ez m, ez <= 0 -> Zpos mz = m * 2 ^ (- ez) -> 0 <= m < 2 ^ 53 ->
+  trunc_sf (S754_finite s mz ez) = if s then - m else m.
+Proof.
+  intros s mz ez m He Hm Hr. cbn [trunc_sf].
+  assert (Hmag : (if 0 <=? ez then Zpos mz * 2 ^ ez else Zpos mz / 2 ^ (- ez)) = m).
+  { destruct (0 <=? ez) eqn:E.
+    - apply Z.leb_le in E. assert (ez = 0) by lia. subst ez. cbn in Hm. rewrite Z.pow_0_r. lia.
+    - rewrite Hm. apply Z.div_mul. apply Z.pow_nonzero; lia. }
+  rewrite Hmag. cbv zeta. unfold HALF.
+  assert (H53 : 2 ^ 53 < 2 ^ 63) by (apply Z.pow_lt_mono_r; lia).
+  destruct s.
+  - destruct (- m <? - 2 ^ 63) eqn:E1; [apply Z.ltb_lt in E1; lia|].
+    destruct (2 ^ 63 - 1 <? - m) eqn:E2; [apply Z.ltb_lt in E2; lia|]. reflexivity.
+  - destruct (m <? - 2 ^ 63) eqn:E1; [apply Z.ltb_lt in E1; lia|].
+    destruct (2 ^ 63 - 1 <? m) eqn:E2; [apply Z.ltb_lt in E2; lia|]. reflexivity.
+Qed.
+
+Lemma of_uint63_small : forall n, Uint63.to_Z n < 2 ^ 53 ->
+  trunc_sf (Prim2SF (PrimFloat.of_uint63 n)) = Uint63.to_Z n /\ trunc_sf (SFopp (Prim2SF (PrimFloat.of_uint63 n))) = - Uint63.to_Z n.
+Proof.
+  intros n Hn. rewrite FloatAxioms.of_uint63_spec. pose proof (Uint63.to_Z_bounded n) as Hb.
+  destruct (Uint63.to_Z n) as [|m|m] eqn:E; [split; reflexivity | | lia].
+  cbn [binary_normalize].
+  destruct (binary_round_small false m Hn) as (mz & ez & Hbr & He1 & He2 & Hmz).
+  rewrite Hbr. cbn [SFopp]. split.
+  - rewrite (trunc_sf_exact false mz ez (Zpos m)); [reflexivity | lia | exact Hmz | lia].
+  - rewrite (trunc_sf_exact (negb false) mz ez (Zpos m)); [reflexivity | lia | exact Hmz | lia].
+Qed.
+
+Theorem trunc_float_of_int : forall z, Z.abs z <= 2 ^ 53 -> trunc_float (float_of_int z) = z.
+Proof.
+  intros z Hz.
+  assert (H53 : 2 ^ 53 < Uint63.wB) by (vm_compute; reflexivity).
+  destruct (Z.eq_dec z (2 ^ 53)) as [->|N1]; [vm_compute; reflexivity|].
+  destruct (Z.eq_dec z (- 2 ^ 53)) as [->|N2]; [vm_compute; reflexivity|].
+  unfold float_of_int. rewrite trunc_float_sf. destruct (z <? 0) eqn:Hs.
+  - apply Z.ltb_lt in Hs. rewrite FloatAxioms.opp_spec.
+    assert (Hn : Uint63.to_Z (Uint63.of_Z (- z)) = - z) by (rewrite Uint63.of_Z_spec; apply Z.mod_small; lia).
+    destruct (of_uint63_small (Uint63.of_Z (- z))) as [_ H]; [lia|]. rewrite H, Hn. lia.
+  - apply Z.ltb_ge in Hs.
+    assert (Hn : Uint63.to_Z (Uint63.of_Z z) = z) by (rewrite Uint63.of_Z_spec; apply Z.mod_small; lia).
+    destruct (of_uint63_small (Uint63.of_Z z)) as [H _]; [lia|]. rewrite H, Hn. reflexivity.
+Qed.
+
+Example trunc_float_of_int_tight :
+  trunc_float (float_of_int (2 ^ 53 + 1)) = 2 ^ 53.
+Proof. vm_compute. reflexivity. Qed.
 
 Section WithOracle.
   Variable orc : oracle.
@@ -361,6 +515,22 @@ Section WithOracle.
     destruct (get_arr h l) as [vs| | |]; try discriminate. cbn [bind] in *.
     destruct (show_list n h vs true) as [body| | |] eqn:Hl; try discriminate.
     rewrite (show_list_fuel_mono n h (fun v t => IH h v t) _ _ _ Hl). exact H.
+  Qed.
+
+  (* the fuel-free recursive reading of Display for arrays: whenever an array displays, each of
+     its elements displays, and the text is "[" ++ the element texts joined by ", " ++ "]" *)
+  Theorem display_arr : forall h l vs T, get_arr h l = Ok vs -> display orc h (VArr l) = Ok T ->
+    exists ts, Forall2 (fun v t => display orc h v = Ok t) vs ts /\
+               T = [91%N] ++ join (str_cps ", "%string) ts ++ [93%N].
+  Proof.
+    intros h l vs T Hg H. unfold display, show_depth in *.
+    rewrite show_val_S, Hg in H. cbn [bind] in H.
+    destruct (show_list 1999 h vs true) as [body| | |] eqn:Hl; try discriminate.
+    destruct (show_list_ok_inv _ _ _ _ _ Hl) as (ts & Hts).
+    rewrite (show_list_spec _ _ _ _ true Hts) in Hl. inversion Hl; subst body.
+    cbn [bind] in H. inversion H; subst T. exists ts. split; [|reflexivity].
+    clear - Hts. induction Hts as [|v t vs ts Hv Hr IH]; constructor; [|exact IH].
+    apply show_val_fuel_mono, Hv.
   Qed.
 
   (** * 2. print *)
@@ -817,4 +987,244 @@ Section WithOracle.
     Qed.
   End FloatText.
 
+  (** * 8. Integer <-> float through the builtins *)
+
+  Lemma small_in_int_range : forall z, Z.abs z <= 2 ^ 53 -> in_int_range z = true.
+  Proof.
+    intros z H. unfold in_int_range.
+    assert (Hmin : MIN_INT <= - 2 ^ 53) by (vm_compute; discriminate).
+    assert (Hmax : 2 ^ 53 <= MAX_INT) by (vm_compute; discriminate).
+    apply andb_true_iff. split; apply Z.leb_le; lia.
+  Qed.
+
+  Theorem int_float_roundtrip : forall h z, Z.abs z <= 2 ^ 53 -> exists h',
+    call_builtin orc BFloat h [VInt z] = Ok (VFloat (next_loc h), h', []) /\
+    get_float h' (next_loc h) = Ok (float_of_int z) /\
+    call_builtin orc BInt h' [VFloat (next_loc h)] = Ok (VInt z, h', []).
+  Proof.
+    intros h z Hz. destruct (alloc_float_spec h (float_of_int z)) as (h' & E & G & _).
+    exists h'. repeat split; [| exact G |].
+    - cbn [call_builtin call_float one_arg]. rewrite E. reflexivity.
+    - cbn [call_builtin call_int one_arg]. rewrite G. cbn [bind].
+      rewrite trunc_float_of_int by exact Hz. unfold ranged_int.
+      rewrite small_in_int_range by exact Hz. reflexivity.
+  Qed.
+
+  (* observations: int(NaN) = 0; int(+-infinity) is an ArgumentError (saturates to +-2^63, which
+     the range check rejects) *)
+  Theorem int_of_nan_inf : forall h l,
+    (get_float h l = Ok nan -> call_int h [VFloat l] = Ok (VInt 0, h)) /\
+    (get_float h l = Ok infinity -> call_int h [VFloat l] = Err EArgumentError) /\
+    (get_float h l = Ok neg_infinity -> call_int h [VFloat l] = Err EArgumentError).
+  Proof.
+    intros h l. repeat split; intros H; cbn [call_int one_arg]; rewrite H; reflexivity.
+  Qed.
+
 End WithOracle.
+
+(** * 9. The type names are pairwise distinct (item 8), by computation on the generated table *)
+
+Theorem type_name_inj : forall t1 t2, type_name t1 = type_name t2 -> t1 = t2.
+Proof. intros t1 t2 H. destruct t1, t2; try reflexivity; vm_compute in H; discriminate H. Qed.
+
+Theorem type_names_nodup : NoDup (map type_name tag_list).
+Proof.
+  assert (H : forall l, NoDup l -> NoDup (map type_name l)).
+  { intros l Hl. induction Hl as [|t l Hn Hl IH]; cbn [map]; constructor; [|exact IH].
+    intro Hin. apply in_map_iff in Hin. destruct Hin as (t' & E & Hin').
+    apply type_name_inj in E. subst t'. exact (Hn Hin'). }
+  apply H. unfold tag_list.
+  repeat (constructor; [cbn [In]; intros Hf; repeat (destruct Hf as [Hf|Hf]; [discriminate Hf|]); exact Hf|]).
+  constructor.
+Qed.
+
+Example type_name_values :
+  map type_name [TNull; TBool; TInt; TFloat; TString; TArray; TFunction] =
+  map str_cps ["null"; "bool"; "int"; "float"; "string"; "array"; "functie"]%string.
+Proof. reflexivity. Qed.
+
+(** * 10. Examples (non-vacuity), by computation *)
+
+Definition orc0 : oracle := mkOracle (fun _ => []) (fun _ => None) (fun x _ => x).
+
+Definition heap_of_strs (l : list string) : list val * heap :=
+  fold_left (fun '(vs, h) s => let '(v, h') := alloc_str h (str_cps s) in (vs ++ [v], h'))
+            l ([], empty_heap).
+
+(* int(string(MIN_INT)) *)
+Example ex_int_text_roundtrip :
+  (do r1 <- call_builtin orc0 BString empty_heap [VInt (-1152921504606846976)];
+   let '(v, h1, _) := r1 in
+   do r2 <- call_builtin orc0 BInt h1 [v];
+   let '(w, _, _) := r2 in Ok w) = Ok (VInt (-1152921504606846976)).
+Proof. vm_compute. reflexivity. Qed.
+
+Example ex_int_range_nonvacuous : in_int_range (-1152921504606846976) = true.
+Proof. vm_compute. reflexivity. Qed.
+
+(* isize::MIN parses, but is not an integer of the language *)
+Example ex_parse_isize_min : parse_isize (show_Z (- 2 ^ 63)) = Some (- 2 ^ 63).
+Proof. vm_compute. reflexivity. Qed.
+
+(* int(" \t-0042\n") = -42, int("+7") = 7, int("4 2"), int("") and int("-") are errors *)
+Example ex_int_parses :
+  let '(vs, h) := heap_of_strs [" 	-0042
+"; "+7"; "4 2"; ""; "-"]%string in
+  map (fun v => call_int h [v]) vs =
+  [Ok (VInt (-42), h); Ok (VInt 7, h); Err EArgumentError; Err EArgumentError; Err EArgumentError].
+Proof. vm_compute. reflexivity. Qed.
+
+(* the README example *)
+Example ex_print_readme :
+  let '(vs, h) := heap_of_strs ["Hey {}. Je bent nummer {} die dit echt leest."; "jij"]%string in
+  call_builtin orc0 BPrint h (vs ++ [VInt 1337]) =
+  Ok (VNull, h, str_cps "Hey jij. Je bent nummer 1337 die dit echt leest." ++ [10%N]).
+Proof. vm_compute. reflexivity. Qed.
+
+(* inserted text is not rescanned: print("{} {}", "{}", "x") prints "{} x" *)
+Example ex_print_norescan :
+  let '(vs, h) := heap_of_strs ["{} {}"; "{}"; "x"]%string in
+  call_builtin orc0 BPrint h vs = Ok (VNull, h, str_cps "{} x" ++ [10%N]).
+Proof. vm_compute. reflexivity. Qed.
+
+Example ex_subst_norescan :
+  subst (str_cps "{} {}") [str_cps "{}"; str_cps "x"] = str_cps "{} x".
+Proof. vm_compute. reflexivity. Qed.
+
+(* surplus placeholders stay, surplus arguments are dropped, "{" "}" apart is no placeholder *)
+Example ex_subst_surplus :
+  subst (str_cps "{}-{}-{ }") [str_cps "a"] = str_cps "a-{}-{ }" /\
+  subst (str_cps "{}") [str_cps "a"; str_cps "b"] = str_cps "a" /\
+  subst (str_cps "{{}}") [str_cps "a"] = str_cps "{a}".
+Proof. vm_compute. repeat split. Qed.
+
+(* a nested array [1, [ja, "a"], null, []] *)
+Definition ex_heap_nested : heap :=
+  let '(_, h1) := h_alloc empty_heap (OStr (str_cps "a")) in                      (* 1 *)
+  let '(_, h2) := h_alloc h1 (OArr [VBool true; VStr 1%positive]) in             (* 2 *)
+  let '(_, h3) := h_alloc h2 (OArr []) in                                         (* 3 *)
+  let '(_, h4) := h_alloc h3 (OArr [VInt 1; VArr 2%positive; VNull; VArr 3%positive]) in  (* 4 *)
+  h4.
+
+Example ex_display_nested :
+  display orc0 ex_heap_nested (VArr 4%positive) = Ok (str_cps "[1, [ja, a], , []]").
+Proof. vm_compute. reflexivity. Qed.
+
+Example ex_nested_args_ok :
+  args_ok BPrint ex_heap_nested [VArr 4%positive] /\
+  Forall (depth_le ex_heap_nested show_depth) [VArr 4%positive].
+Proof.
+  split.
+  - constructor; [|constructor]. unfold show_depth. cbn [reach_ok]. split; [reflexivity|].
+    intros vs Hvs. vm_compute in Hvs. inversion Hvs; subst vs.
+    repeat constructor; try reflexivity.
+    + intros vs Hvs'. vm_compute in Hvs'. inversion Hvs'; subst vs. repeat constructor.
+    + intros vs Hvs'. vm_compute in Hvs'. inversion Hvs'; subst vs. constructor.
+  - constructor; [|constructor]. eapply (show_val_ok_depth orc0). exact ex_display_nested.
+Qed.
+
+(* D26: a cyclic array satisfies the safety hypothesis at every depth, has no nesting depth,
+   and print runs out of fuel (Rust: native stack overflow) *)
+Definition ex_heap_cyclic : heap :=
+  mkHeap (PM.add 1%positive (true, OArr [VArr 1%positive]) (PM.empty _)) 2%positive 1 0.
+
+Example ex_cyclic_reach_ok : forall n, reach_ok ex_heap_cyclic n (VArr 1%positive).
+Proof.
+  induction n as [|n IH]; [exact I|]. cbn [reach_ok]. split; [reflexivity|].
+  intros vs Hvs. vm_compute in Hvs. inversion Hvs; subst vs. constructor; [exact IH | constructor].
+Qed.
+
+Example ex_cyclic_no_depth : forall n, ~ depth_le ex_heap_cyclic n (VArr 1%positive).
+Proof. intros n. eapply depth_le_cyclic; [reflexivity | left; reflexivity]. Qed.
+
+Example ex_cyclic_print :
+  call_builtin orc0 BPrint ex_heap_cyclic [VArr 1%positive] = OutOfFuel.
+Proof. vm_compute. reflexivity. Qed.
+
+(* a dangling or wrongly tagged argument does fault: the hypothesis of builtins_total is needed *)
+Example ex_dangling_faults :
+  call_builtin orc0 BLength empty_heap [VStr 1%positive] = Fault FUseAfterFree /\
+  call_builtin orc0 BLength ex_heap_nested [VStr 2%positive] = Fault FBadTag.
+Proof. vm_compute. split; reflexivity. Qed.
+
+(* string(ja) is "true" although print(ja) writes "ja" (observation, see report) *)
+Example ex_string_bool :
+  (do r <- call_builtin orc0 BString empty_heap [VBool true];
+   let '(v, h, _) := r in display orc0 h v) = Ok (str_cps "true") /\
+  display orc0 empty_heap (VBool true) = Ok (str_cps "ja").
+Proof. vm_compute. split; reflexivity. Qed.
+
+(** ** an oracle satisfying the round-trip law of float_text_roundtrip *)
+
+Definition enc_bool (b : bool) : cp := if b then 1%N else 0%N.
+Definition enc_Z (z : Z) : cp :=
+  match z with Z0 => 0%N | Zpos p => Npos (xO p) | Zneg p => Npos (xI p) end.
+Definition dec_Z (n : cp) : Z :=
+  match n with Npos (xO p) => Zpos p | Npos (xI p) => Zneg p | _ => 0 end.
+Definition show_sf (f : spec_float) : text :=
+  match f with
+  | S754_zero s => [0%N; enc_bool s]
+  | S754_infinity s => [1%N; enc_bool s]
+  | S754_nan => [2%N]
+  | S754_finite s m e => [3%N; enc_bool s; Npos m; enc_Z e]
+  end.
+Definition parse_sf (t : text) : option spec_float :=
+  match t with
+  | [k] => if (k =? 2)%N then Some S754_nan else None
+  | [k; s] => if (k =? 0)%N then Some (S754_zero (s =? 1)%N)
+              else if (k =? 1)%N then Some (S754_infinity (s =? 1)%N) else None
+  | [k; s; Npos m; e] => if (k =? 3)%N then Some (S754_finite (s =? 1)%N m (dec_Z e)) else None
+  | _ => None
+  end.
+Definition orc1 : oracle :=
+  mkOracle (fun x => show_sf (Prim2SF x)) (fun t => option_map SF2Prim (parse_sf t)) (fun x _ => x).
+
+(* uses the standard-library axiom FloatAxioms.SF2Prim_Prim2SF *)
+Lemma orc1_roundtrip : forall x, parse_float orc1 (show_float orc1 x) = Some x.
+Proof.
+  intros x. cbn [orc1 parse_float show_float].
+  assert (H : parse_sf (show_sf (Prim2SF x)) = Some (Prim2SF x)).
+  { destruct (Prim2SF x) as [s|s| |s m e]; try destruct s; try reflexivity;
+      destruct e; reflexivity. }
+  rewrite H. cbn [option_map]. rewrite SF2Prim_Prim2SF. reflexivity.
+Qed.
+
+Example ex_float_text_roundtrip :
+  let '(_, h) := alloc_float empty_heap 0.1%float in
+  (do r1 <- call_builtin orc1 BString h [VFloat 1%positive];
+   let '(v, h1, _) := r1 in
+   do r2 <- call_builtin orc1 BFloat h1 [v];
+   let '(w, h2, _) := r2 in
+   match w with VFloat l => get_float h2 l | _ => Err ETypeError end) = Ok 0.1%float.
+Proof. vm_compute. reflexivity. Qed.
+
+Print Assumptions builtins_total.
+Print Assumptions builtins_total_bounded.
+Print Assumptions arity_error.
+Print Assumptions cast_identity.
+Print Assumptions bool_spec.
+Print Assumptions int_spec.
+Print Assumptions float_spec.
+Print Assumptions string_spec.
+Print Assumptions length_spec.
+Print Assumptions type_spec.
+Print Assumptions type_name_inj.
+Print Assumptions string_decimal.
+Print Assumptions int_parses_decimal.
+Print Assumptions int_text_ok_inv.
+Print Assumptions int_text_roundtrip.
+Print Assumptions float_text_roundtrip.
+Print Assumptions print_spec.
+Print Assumptions print_total.
+Print Assumptions print_oof.
+Print Assumptions subst_first.
+Print Assumptions show_val_total.
+Print Assumptions show_val_arr.
+Print Assumptions display_arr.
+Print Assumptions show_val_fuel_mono.
+Print Assumptions trunc_float_spec.
+(* the three below rest on standard-library axioms (FloatAxioms / Uint63), listed in the output *)
+Print Assumptions bool_positive_float.
+Print Assumptions trunc_float_of_int.
+Print Assumptions int_float_roundtrip.
+Print Assumptions orc1_roundtrip.
